@@ -3,11 +3,12 @@ import io
 import itertools
 import re
 import contracts.window as W
+import contracts.cursorwindow as CW
 from pyvc.verify import verify
 from bounded.common import Suite
 
 LEVEL = "exploration"
-CONTRACTS = [W.once, W.diff]
+CONTRACTS = [W.once, W.diff, CW.caw_remembers]
 ASSUMPTIONS = [
     "get_cursor_position (regex-driven incremental parse) is outside the verifier's reach: assumed contract "
     "'returns the reported zero-based (row, col)' in the movement proofs, decided by the bounded suite C18.parse",
